@@ -61,14 +61,16 @@ Print Assumptions select_fail.
 
 (* CLOSE always deselects; on a read-only selection it succeeds without
    touching the backend; on a read-write one it succeeds whenever the
-   backend's expunge does. *)
+   backend's expunge returns, and also when the mailbox is gone (deleted or
+   renamed by another session). *)
 Theorem close_deselects :
   forall (B : Type) (bk : B -> bcall -> answer * B) (cfg : config) (c : conn) (b : B) u m ro,
     c_phase c = Selected u m ro ->
     let '(c', b', o) := conn_step B bk cmd_table cfg c b (CCmd "CLOSE" ANone) in
     has_selected (c_phase c') = false /\
     (ro = true -> o_cond o = OK /\ b' = b /\ c_phase c' = Authd u) /\
-    (ro = false -> forall r g b1, bk b (call "expunge_mailbox" [] []) = (AnsOk r g, b1) ->
+    (ro = false -> forall x b1, bk b (call "expunge_mailbox" [] []) = (x, b1) ->
+                   (exists r g, x = AnsOk r g) \/ x = AnsNotFound ->
                    o_cond o = OK /\ b' = b1 /\ c_phase c' = Authd u).
 Proof. exact close_deselects_tbl. Qed.
 Print Assumptions close_deselects.
